@@ -233,7 +233,7 @@ func checkC04(p *Prog, r *Report) {
 			}
 			nFlagSites++
 			failIdx++
-			r.Check("R3", fmt.Sprintf("%s|failure#%d", base, failIdx), addressed, p.InstrPos(b.Instrs[0]), fmt.Sprintf("failure is reported under the conditions: %s", guardDesc(Guards(b))))
+			r.Check("R3", fmt.Sprintf("%s|failure#%d", p.StableName(fn), failIdx), addressed, p.InstrPos(b.Instrs[0]), fmt.Sprintf("failure is reported under the conditions: %s", guardDesc(Guards(b))))
 		}
 		// R8: mutator calls and replacements
 		forEachCall(fn, func(site ssa.CallInstruction) {
